@@ -411,6 +411,36 @@ def _nontrivial(doc: dict) -> bool:
     return len(nodes) >= 3 or any(True for _ in rw.iter_sweeps(doc))
 
 
+def _near_twin(doc: dict):
+    """Copy of ``doc`` whose explicit sweep sequences have ==-equal values of another scalar type, or None."""
+    import copy
+
+    from vlib import rewrite as rw
+
+    twin = copy.deepcopy(doc)
+    changed = False
+    for _i, blk in rw.iter_sweeps(twin):
+        for name, spec in list((blk.get("variables") or {}).items()):
+            vals = spec if isinstance(spec, list) else (spec.get("values") if isinstance(spec, dict) else None)
+            if not isinstance(vals, list) or not vals:
+                continue
+            new = []
+            for v in vals:
+                if isinstance(v, float) and v == int(v):
+                    new.append(int(v)); changed = True
+                elif isinstance(v, bool):
+                    new.append(int(v)); changed = True
+                elif isinstance(v, int):
+                    new.append(float(v)); changed = True
+                else:
+                    new.append(v)
+            if isinstance(spec, list):
+                blk["variables"][name] = new
+            else:
+                spec["values"] = new
+    return twin if changed else None
+
+
 def _history(seed: int, k: int, scratch: str) -> int:
     """Build and execute k unrelated pipelines in this interpreter (no module / extension loading)."""
     from vlib import account, gen, tracecheck as tc
@@ -466,6 +496,17 @@ def check_config(run, case: dict, scratch: str, rng, limit: int, with_history: b
     base_text = rw.dump_block(doc)
     ctx, data = case["ctx"], case["data"]
     wit = {"kind": "rewrite", "base_text": base_text, "ctx": ctx, "data": data}
+    # history of a NEAR-TWIN first (same configuration, explicit sequence values re-typed: 1.0 <-> 1, 0/1 <-> false/true):
+    # whatever this interpreter built before must not leak into the identities of the configuration under test
+    # (they are compared with fresh-process identities in subprocess_stage)
+    twin = _near_twin(doc)
+    if twin is not None:
+        try:
+            identity_tuple(rw.dump_block(twin), scratch, ctx, data)
+            run.count("near_twin_histories")
+            case.setdefault("tags", []).append("near_twin_history")
+        except Exception:
+            run.count("near_twin_not_buildable")
     try:
         T0 = identity_tuple(base_text, scratch, ctx, data, cli_run=with_cli_run)
     except Exception as exc:
@@ -645,7 +686,7 @@ def run_chunk(run, chunk: int):
         # prefer configurations with sweeps / from_context / nested parameters for the expensive contexts
         def weight(ob):
             t = ob["case"].get("tags", [])
-            return -(("fc_sweep" in t) * 4 + ("sweep_case" in t) * 2 + ("nested_params" in t) + ("run_space" in t))
+            return -(("near_twin_history" in t) * 8 + ("fc_sweep" in t) * 4 + ("sweep_case" in t) * 2 + ("nested_params" in t) + ("run_space" in t))
         ranked = sorted(observed, key=weight)
         subprocess_stage(run, ranked[:N_SUBPROC_CONFIGS[run.tier]], scratch, rng)
         cli_subprocess_stage(run, ranked[:N_CLI_SUBPROC[run.tier]], scratch, rng)
